@@ -172,7 +172,7 @@ func v18Bytes(n int, seed uint32) []byte {
 }
 
 func v18Word(rt *rapid.T, label string) string {
-	k := rapid.IntRange(0, 9).Draw(rt, label+"Kind")
+	k := rapid.IntRange(0, 11).Draw(rt, label+"Kind")
 	switch {
 	case k == 0:
 		return strings.Repeat("L", 255)
@@ -180,9 +180,9 @@ func v18Word(rt *rapid.T, label string) string {
 		return "a"
 	case k == 2:
 		return "pa:ss word\x00\xff"
-	case k == 3:
+	case k == 3, k == 4:
 		return "lowercase"
-	case k == 4:
+	case k == 5, k == 6:
 		return "UPPER"
 	}
 	n := rapid.IntRange(1, 8).Draw(rt, label+"Len")
@@ -215,25 +215,25 @@ func v18GenSConn(rt *rapid.T, c *v18SCase, idx int) *v18SConn {
 	if c.authOn {
 		w := rapid.IntRange(0, 99).Draw(rt, "subKind")
 		switch {
-		case w < 40:
+		case w < 35:
 			s.sub = v18SubRight
-		case w < 55:
+		case w < 48:
 			s.sub = v18SubNone
-		case w < 65:
+		case w < 56:
 			s.sub = v18SubWrongPass
-		case w < 70:
+		case w < 61:
 			s.sub = v18SubWrongUser
-		case w < 74:
+		case w < 65:
 			s.sub = v18SubSwapped
-		case w < 78:
+		case w < 68:
 			s.sub = v18SubEmptyUser
-		case w < 82:
+		case w < 71:
 			s.sub = v18SubEmptyPass
-		case w < 87:
+		case w < 76:
 			s.sub = v18SubPassPrefix
-		case w < 91:
+		case w < 80:
 			s.sub = v18SubPassExtended
-		case w < 95:
+		case w < 92:
 			s.sub = v18SubCaseFlip
 		default:
 			s.sub = v18SubBadVer
